@@ -19,6 +19,7 @@ func c14Without(plan *enginesim.Plan) (*enginesim.Plan, []int) {
 	out := *plan
 	out.Ops = nil
 	out.RestartBefore = nil
+	out.ReadFaultOf = nil             // (they are aimed at previews only)
 	idx := make([]int, len(plan.Ops)) // old index -> new index (-1 removed)
 	for i, op := range plan.Ops {
 		if op.DryRun {
@@ -94,7 +95,7 @@ func firstDiff(a, b []string) string {
 
 func TestC14(t *testing.T) {
 	c := evid.New("C14")
-	c.Rule = "sequential histories of 3-10 real writes of all kinds with previews (dry run) of all kinds inserted at generated positions (succeeding and failing, with and without idempotency key), process restarts at generated positions. Each case runs H1 (as generated), H0 (previews removed) and H2_k (preview k made real). Oracle: persisted log, responses of real writes and publications of H1 equal those of H0 byte for byte; the preview's answer in H1 equals its real twin's answer in H2_k. A second family (50%) lets previews race real writes (generated schedules) and checks the no-effect clauses as invariants of the history: transaction ids dense in log order, every entry produced by a real request, nothing published for a preview, and the guarantees of the real writes around it intact (unique references, idempotency keys, no overdraft); a quarter of its rounds are bursts of creates sharing one reference, a third of them previews. A third family (1 in 12) sends one write request of either API version with the preview flag in each spelling the handlers accept (true in any case, 1, yes in any case) through the real routers over a real Commander: no log entry may appear. Non-trivial = a successful preview followed by at least one real transaction (sequential family) or a preview overlapping a real write (concurrent family); distinct by operations (and gate trace)."
+	c.Rule = "sequential histories of 3-10 real writes of all kinds with previews (dry run) of all kinds inserted at generated positions (succeeding and failing, with and without idempotency key), process restarts at generated positions. A third of the histories with previews aim a failing store read at one preview (its real twin in H2_k meets the same failure); a quarter of all histories start with one account overdrawn. Each case runs H1 (as generated), H0 (previews removed) and H2_k (preview k made real). Oracle: persisted log, responses of real writes and publications of H1 equal those of H0 byte for byte; the preview's answer in H1 equals its real twin's answer in H2_k. A second family (50%) lets previews race real writes (generated schedules) and checks the no-effect clauses as invariants of the history: transaction ids dense in log order, every entry produced by a real request, nothing published for a preview, and the guarantees of the real writes around it intact (unique references, idempotency keys, no overdraft); a quarter of its rounds are bursts of creates sharing one reference, a third of them previews. A third family (1 in 12) sends one write request of either API version with the preview flag in each spelling the handlers accept (true in any case, 1, yes in any case) through the real routers over a real Commander: no log entry may appear. Non-trivial = a successful preview followed by at least one real transaction (sequential family) or a preview overlapping a real write (concurrent family); distinct by operations (and gate trace)."
 	c.Assumptions = []string{engineAssumption, "the bubble's fake clock stands still, so timestamps (and therefore hashes) are equal across the runs; cases where it moved are discarded and counted"}
 	cfg := enginesim.DefaultConfig()
 	cfg.Sequential = true
@@ -167,6 +168,16 @@ func TestC14(t *testing.T) {
 				plan.RestartBefore = append(plan.RestartBefore, rapid.IntRange(1, len(plan.Ops)-1).Draw(rt, "restartBefore"))
 			}
 		}
+		// a preview may meet a failing store like any request: one of its reads fails (the real twin of H2 meets the same failure)
+		if nPrev > 0 && rapid.IntRange(0, 2).Draw(rt, "previewReadFault") == 0 {
+			var previews []int
+			for i, op := range plan.Ops {
+				if op.DryRun {
+					previews = append(previews, i)
+				}
+			}
+			plan.ReadFaultOf = append(plan.ReadFaultOf, [2]int{rapid.SampledFrom(previews).Draw(rt, "faultyPreview"), rapid.IntRange(0, 3).Draw(rt, "faultyRead")})
+		}
 		h1 := runEngine(t, rt, c, plan)
 		if h1 == nil {
 			return
@@ -181,6 +192,9 @@ func TestC14(t *testing.T) {
 			return
 		}
 		labels := []string{fmt.Sprintf("previews:%d", min(nPrev, 3)), fmt.Sprintf("restarts:%d", len(plan.RestartBefore))}
+		if h1.ReadFaults > 0 {
+			labels = append(labels, "preview-met-failing-read")
+		}
 		nontrivial := false
 		for i, op := range plan.Ops {
 			if op.DryRun && h1.Responses[i] != nil && h1.Responses[i].OK {
